@@ -20,6 +20,8 @@ pub struct VerifEvent {
     pub args: [u64; 4],
     /// Short textual argument (e.g. a wait result).
     pub text: &'static str,
+    /// Projection of state after the action (e.g. the wait-for edges), empty if the hook logs none.
+    pub detail: String,
 }
 
 type Sink = Box<dyn Fn(&VerifEvent) + Send + Sync>;
@@ -83,6 +85,29 @@ pub(crate) fn proto(
             key2,
             args,
             text,
+            detail: String::new(),
+        });
+    }
+}
+
+/// Like [`proto`], with a projection of the state after the action (computed only when enabled).
+#[inline]
+pub(crate) fn proto_detail(
+    name: &'static str,
+    key: Option<crate::DatabaseKeyIndex>,
+    key2: Option<crate::DatabaseKeyIndex>,
+    args: [u64; 4],
+    text: &'static str,
+    detail: impl FnOnce() -> String,
+) {
+    if enabled() {
+        emit(VerifEvent {
+            name,
+            key,
+            key2,
+            args,
+            text,
+            detail: detail(),
         });
     }
 }
